@@ -52,26 +52,31 @@ def parseAspEnts : Nat → List String → List AspEnt × List String
       (⟨nat! m, nat! a⟩ :: es, rest')
     | _ => ([], [])
 
-/-- `<ncomm> c… <anyPeer> <npeers> p… <medP> <med> <lpP> <lp> <addP> <add> <route> <lenP> <lenOp> <len>
-     <pfxP> <npfx> (base plen lo hi)… <aspP> <nasp> (mode asn)…` repeated -/
+/-- `<commP> <commOpt> <ncomm> c… <anyPeer> <nbrOpt> <npeers> p… <medP> <med> <lpP> <lp> <addP> <add>
+     <route> <lenP> <lenOp> <len> <pfxP> <pfxOpt> <npfx> (base plen lo hi)… <aspP> <aspOpt> <nasp>
+     (mode asn)…` repeated -/
 def parseStmts : Nat → List String → List Stmt
   | 0, _ => []
   | n + 1, ts =>
-    let (comms, rest) := takeList ts
-    match rest with
-    | anyP :: rest =>
-      let (peers, rest) := takeList rest
+    match ts with
+    | commP :: commOpt :: rest =>
+      let (comms, rest) := takeList rest
       match rest with
-      | mp :: med :: lpp :: lp :: ap :: add :: route :: lenP :: lenOp :: len :: pfxP :: npfx :: rest =>
-        let (pes, rest) := parsePfxEnts (nat! npfx) rest
+      | anyP :: nbrOpt :: rest =>
+        let (peers, rest) := takeList rest
         match rest with
-        | aspP :: nasp :: rest =>
-          let (aes, rest') := parseAspEnts (nat! nasp) rest
-          { commSet := comms, anyPeer := b! anyP, peers := peers, setMed := optNat mp med,
-            setLp := optNat lpp lp, addComm := optNat ap add, route := nat! route,
-            aspLen := if b! lenP then some (nat! lenOp, nat! len) else none,
-            pfxSet := if b! pfxP then some pes else none,
-            aspSet := if b! aspP then some aes else none } :: parseStmts n rest'
+        | mp :: med :: lpp :: lp :: ap :: add :: route :: lenP :: lenOp :: len :: pfxP :: pfxOpt :: npfx :: rest =>
+          let (pes, rest) := parsePfxEnts (nat! npfx) rest
+          match rest with
+          | aspP :: aspOpt :: nasp :: rest =>
+            let (aes, rest') := parseAspEnts (nat! nasp) rest
+            { commSet := if b! commP then some comms else none, commOpt := nat! commOpt,
+              anyPeer := b! anyP, nbrOpt := nat! nbrOpt, peers := peers, setMed := optNat mp med,
+              setLp := optNat lpp lp, addComm := optNat ap add, route := nat! route,
+              aspLen := if b! lenP then some (nat! lenOp, nat! len) else none,
+              pfxSet := if b! pfxP then some pes else none, pfxOpt := nat! pfxOpt,
+              aspSet := if b! aspP then some aes else none, aspOpt := nat! aspOpt } :: parseStmts n rest'
+          | _ => []
         | _ => []
       | _ => []
     | _ => []
